@@ -1234,7 +1234,8 @@ result_t NumberDataType::parseInput(const string inputStr, unsigned int* parsedV
           }
         } else {
           unsigned long unsignedValue = strtoul(str, &strEnd, base);
-          if (errno == ERANGE || unsignedValue >= (1UL << m_bitCount)) {
+          if (errno == ERANGE || unsignedValue >= (1UL << m_bitCount)
+          || (unsignedValue != 0 && memchr(str, '-', digits - str) != nullptr)) {  // strtoul negates modulo 2^64
             return RESULT_ERR_OUT_OF_RANGE;
           }
           value = (unsigned int)unsignedValue;
